@@ -45,6 +45,28 @@ def build(features=None, name='flagged'):
          ensures=[E('val', '*r == old(self).val(id) && final(self).val(id) == *final(r)', 'C04'),
                   E('events', 'final(self).log() == old(self).log() + old(self).ev_get_mut(id) && final(self).emits() == old(self).emits()', 'C12 C13'),
                   E('frame', '(forall|j: Index| #![trigger final(self).has(j)] final(self).has(j) == old(self).has(j)) && (forall|j: Index| #![trigger final(self).val(j)] j != id ==> final(self).val(j) == old(self).val(j))', 'C04')])
+    # constructors: empty, nothing written, emission on
+    u.fn(FL, ['impl<C, T> Default for FlaggedStorage<C, T>', 'fn default'], ret='r', props='C12 C04', key='FlaggedStorage::default',
+         impl_header='impl<C: Component, T: TryDefaultStorage<C>> FlaggedStorage<C, T>',
+         ensures=[E('emits', 'r.emits()', 'C12'), E('log', 'r.log() == Seq::<ComponentEvent>::empty()', 'C12'),
+                  E('empty', 'r.us_wf() && forall|i: Index| !r.has(i)', 'C04')])
+    u.fn(DF, ['impl<C, T> Default for DerefFlaggedStorage<C, T>', 'fn default'], ret='r', props='C12 C04', key='DerefFlaggedStorage::default',
+         impl_header='impl<C: Component, T: TryDefaultStorage<C>> DerefFlaggedStorage<C, T>',
+         ensures=[E('emits', 'r.emits()', 'C12'), E('log', 'r.channel@ == Seq::<ComponentEvent>::empty()', 'C12'),
+                  E('empty', 'r.storage.us_wf() && forall|i: Index| !r.storage.has(i)', 'C04')])
+    # the Tracked impls: access to the channel and the emission switch
+    for (file, ty) in ((FL, 'FlaggedStorage'), (DF, 'DerefFlaggedStorage')):
+        TH = 'impl<C, T> Tracked for %s<C, T>' % ty
+        TI = 'impl<C, T> %s<C, T>' % ty
+        u.fn(file, [TH, 'fn channel'], ret='r', props='C12', impl_header=TI, key=ty + '::channel',
+             ensures=[E('same', '*r == self.channel.inner()' if ty == 'FlaggedStorage' else '*r == self.channel')])
+        u.fn(file, [TH, 'fn channel_mut'], ret='r', props='C12', impl_header=TI, key=ty + '::channel_mut',
+             ensures=[E('same', ('*r == old(self).channel.inner() && final(self).channel.inner() == *final(r)' if ty == 'FlaggedStorage' else '*r == old(self).channel && final(self).channel == *final(r)') + ' && final(self).storage == old(self).storage && final(self).emits() == old(self).emits()')])
+        if ec:
+            u.fn(file, [TH, 'fn set_event_emission'], props='C12', impl_header=TI, key=ty + '::set_event_emission',
+                 ensures=[E('switch', 'final(self).emits() == emit && final(self).channel == old(self).channel && final(self).storage == old(self).storage')])
+            u.fn(file, [TH, 'fn event_emission'], ret='r', props='C12', impl_header=TI, key=ty + '::event_emission',
+                 ensures=[E('val', 'r == self.emits()')])
     # an override of the trait's default `drop` (absent on the pinned tree) would have to meet the trait's drop contract
     u.fn(FL, [FH, 'fn drop'], props='C12 C04 C05', group='impl_flagged', key='FlaggedStorage::drop', optional=True,
          hint_obligations=TRAIT('drop', [('gone', 'C04'), ('wf', 'C04'), ('frame', 'C04'), ('events', 'C12')]))
